@@ -39,6 +39,8 @@ def op_st():
         st.tuples(st.sampled_from(["get", "get", "get-query", "upload", "delete", "get-upper"]), hp).map(lambda t: {"op": t[0], "hp": list(t[1])}),
         st.tuples(hp, hp).map(lambda t: {"op": "get-redirect", "hp": list(t[0]), "to": list(t[1])}),
         st.tuples(hp, st.sampled_from(KINDS)).map(lambda t: {"op": "get-redirect-switch", "hp": list(t[0]), "cert2": t[1]}),
+        st.tuples(hp, st.sampled_from(PARSABLE), st.sampled_from(["get", "upload"])).map(
+            lambda t: {"op": "concurrent", "hp": list(t[0]), "cert2": t[1], "kind": t[2]}),
         st.tuples(hp, st.sampled_from(KINDS)).map(lambda t: {"op": "rotate", "hp": list(t[0]), "cert": t[1]}),
         st.tuples(hp, st.sampled_from(PARSABLE)).map(lambda t: {"op": "trust", "hp": list(t[0]), "cert": t[1]}),
         hp.map(lambda t: {"op": "revoke", "hp": list(t)}),
@@ -156,7 +158,34 @@ def run_history(case: dict):
         for idx, op in enumerate(case["ops"]):
             o = op["op"]
             where = f"step {idx} {op}"
-            if o == "get-redirect-switch":
+            if o == "concurrent":
+                # two calls in flight at once; the peer presents its current certificate on one connection and cert2 on the other
+                import asyncio
+
+                hp = tuple(op["hp"])
+                peer = net.peers[hp]
+                c1, c2 = certs.get(state[hp]), certs.get(op["cert2"])
+                peer.cert_sequence = [c1] * len(peer.conns) + [c1, c2]
+                (r1, _l1), (r2, _l2) = await asyncio.gather(fetch(op["kind"], hp), fetch(op["kind"], hp))
+                peer.cert_sequence = None
+                stats["fetches"] += 2
+                oks = [r for r in (r1, r2) if r[0] == "ok"]
+                t = table()
+                pin_after = t.get(hp)
+                accepted = set()
+                if state[hp] in PARSABLE and c1.fingerprint != c2.fingerprint and len(oks) == 2:
+                    stats["mismatch_fetches"] += 1
+                    return viol("two-different-certificates-accepted", f"{where}: both concurrent calls succeeded although the peer presented "
+                                f"{state[hp]} on one connection and {op['cert2']} on the other; pin now {str(pin_after)[:24]}", why="concurrent")
+                # adopt the resulting pin if it is one of the presented certificates (either order is a legal serialisation)
+                if pin_after in (c1.fingerprint, c2.fingerprint) and (hp not in model or model[hp] == pin_after or not oks):
+                    if hp not in model and oks:
+                        model[hp] = pin_after
+                elif hp in model and pin_after != model[hp]:
+                    return viol("trust-store-differs-from-model", f"after {where}: pin {pin_after} model {model.get(hp)}")
+                if hp not in model and pin_after is not None:
+                    model[hp] = pin_after
+            elif o == "get-redirect-switch":
                 # same-origin redirect; the connection opened for the follow-up hop presents another certificate
                 hp = tuple(op["hp"])
                 peer = net.peers[hp]
